@@ -33,7 +33,7 @@ Proof.
   rewrite eshl_1. cbn [bind].
   destruct (U_mul dbg w b b) as [bb|]; [|reflexivity]. cbn [of_outcome bind].
   rewrite IH. destruct (Pow.iilog f dbg w (m * 2 mod 2 ^ 32) bb (fst (U_div_rem_unchecked w k b))) as [[[new q]|]|];
-    try reflexivity. cbn [bind].
+    try reflexivity. cbn [bind fst snd].
   destruct (cmp_gt (ucmp b q)); [reflexivity|].
   destruct (U_div w q b); reflexivity.
 Qed.
